@@ -1140,6 +1140,7 @@ fn body(ctx: &Ctx) -> (Summary, Meta) {
                             }
                             "every_interleaving" => out.count("instrumented_build_programs_with_every_interleaving", v),
                             "not_run_because_of_the_time_cap" => out.count("instrumented_build_programs_not_run(time cap)", v),
+                            "cell_accesses_are_scheduling_points" => out.count("instrumented_build_cell_accesses_are_scheduling_points", v),
                             _ => {}
                         }
                     }
